@@ -416,9 +416,15 @@ func c04BytesRead(c *Ctx) {
 	// AddBytesRead in readImpl carries the copied length
 	abrI := c.obj(fc, "StreamFlowController", "AddBytesRead")
 	for _, in := range findInstrs(ri, CallsTo(abrI)) {
-		arg := stripConv(in.(ssa.CallInstruction).Common().Args[0])
-		cl, ok := arg.(*ssa.Call)
-		c.Check(ok && builtinName(&cl.Call) == "copy", R, "shape:AddBytesRead(copy(...))", c.P.InstrPos(in), "the consumed amount reported is the number of bytes copied to the caller")
+		var isCopy VP
+		isCopy = func(v ssa.Value) bool {
+			cl, ok := stripConv(v).(*ssa.Call)
+			if ok && builtinName(&cl.Call) == "copy" {
+				return true
+			}
+			return throughParam(v, isCopy)
+		}
+		c.Check(isCopy(in.(ssa.CallInstruction).Common().Args[0]), R, "shape:AddBytesRead(copy(...))", c.P.InstrPos(in), "the consumed amount reported is the number of bytes copied to the caller")
 	}
 	c.checkCallers(R, abrI, c.set([3]string{"", "ReceiveStream", "readImpl"}), 1)
 }
